@@ -790,6 +790,7 @@ sequences) + call-sequence runs of the built extension (see extra.python).".into
             cur_world = None;
             let mut o = WorldOpts::default();
             o.always_fallback = true;
+            o.user_compounds = true;
             let w = world_for(run.opts.seed, &run.prop.clone(), widx, &o);
             if let Ok(w) = &w {
                 w.wd.write("cfg.json", &w.cfg.replacen("{", &format!("{{\"systemDict\":\"system.dic\",\"userDict\":[{}],", (0..w.user_bins.len()).map(|i| format!("\"user{}.dic\"", i)).collect::<Vec<_>>().join(",")), 1));
